@@ -46,7 +46,7 @@ PROP = {
             "same row or insert the same unique key, the loser also inserts elsewhere, the winner commits, the loser's COMMIT is "
             "refused, more committed work, close, open, reads and key probes — a transaction refused at commit must stay rolled "
             "back across the close); 24 / 240 vacuum_open_session cases (VACUUM while 1-2 sessions hold uncommitted inserts / deletes, with "
-            "and without a commit in between, the sessions never finished, close, open, reads); thorough: > 8192 transactions with rollbacks at ids "
+            "and without a commit in between, the sessions never finished, close, open, reads); in both tiers (1 + 1 cases quick, 2 + 3 thorough): > 8192 transactions with rollbacks at ids "
             "~5, 600, 2600, 5600, 8150, 8200, and a sweep of rollbacks across id 8192. Non-trivial (`nt`) = at least one rolled-back "
             "transaction and one id allocation (row, object or transaction id) before some reopen, and id allocations after it; "
             "distinct = distinct case line. Tags `clean` / `kf:<feature>` split clean region and single known-finding feature.",
